@@ -157,8 +157,21 @@ deriving Repr, Inhabited, BEq, DecidableEq
 /-- `processParagraph` -/
 def processParagraph (p : Node) : Para := { text := paraText p, heading := none, list := none }
 
-/-- `processHeading`: the outline-level attribute, overridden by a level the style carries -/
+/-- `processHeading` (repaired, d316e04): a valid `text:outline-level` (1..10) of the `text:h`
+decides (`hasOutlineLevel`); the level the heading's style resolves to is the fall-back when
+the attribute is absent or no level, and 1 when the style carries none either -/
 def processHeading (defs : List StyleDef) (h : Node) : Para :=
+  let lvl := match level19 (h.attr sOutlineLevel) with
+    | some l => l
+    | none =>
+      match resolveHeading defs (h.attr sStyleName) with
+      | some l => if l > 0 then l else 1
+      | none => 1
+  { text := paraText h, heading := some lvl, list := none }
+
+/-- `processHeading` before d316e04 (history): the outline-level attribute, overridden by a
+level the style carries ("if style has heading level, prefer that") -/
+def processHeadingOld (defs : List StyleDef) (h : Node) : Para :=
   let own := (level19 (h.attr sOutlineLevel)).getD 1
   let lvl := match resolveHeading defs (h.attr sStyleName) with
     | some l => if l > 0 then l else own
